@@ -183,9 +183,9 @@ func verifShutdown(nExt int, trigger string) {
 	}
 }
 
-func VerifC09Reset0()         { verifShutdown(0, "timeout") }
-func VerifC09Reset1()         { verifShutdown(1, "timeout") }
-func VerifC09Reset1Failure()  { verifShutdown(1, "failure") }
-func VerifC09Shutdown1()      { verifShutdown(1, "shutdown") }
-func VerifC09Reset2()         { verifShutdown(2, "timeout") }
-func VerifC09Shutdown2()      { verifShutdown(2, "shutdown") }
+func VerifC09Reset0()        { verifShutdown(0, "timeout") }
+func VerifC09Reset1()        { verifShutdown(1, "timeout") }
+func VerifC09Reset1Failure() { verifShutdown(1, "failure") }
+func VerifC09Shutdown1()     { verifShutdown(1, "shutdown") }
+func VerifC09Reset2()        { verifShutdown(2, "timeout") }
+func VerifC09Shutdown2()     { verifShutdown(2, "shutdown") }
